@@ -2,6 +2,13 @@
    - xf_reach_complete: xv_reach (Valid.v: S (length frags) rounds of closure) contains everything a spread path
      reaches; so xv_r_no_fragment_cycles gives the declarative acyclicity (xf_acyclic: no fc_reach n n).
    - xf_collect_some: with acyclic fragments xv_collect never runs out of its fuel S (length frags).
+   - xh_le / xh_bound: the nesting height of fields with fragments expanded is at most
+     (number of fragments) * (deepest selection + 1) + deepest selection (xf_doc_height = xv_merge_fuel - 2).
+   - xh_same_shape_some / xh_can_merge_some / xf_verdict_defined: below that height the specification's
+     SameResponseShape / FieldsInSetCanMerge never run out of fuel; the verdict of 5.3.2 is defined.
+   - mxh_le / mxh_walk_hi / xf_document_hi: the same height on the built document bounds the high water mark of the
+     walk without memo guards.
+   - xing_equiv_full / xing_equiv_nomemo_full: the equivalence with xv_within_limits as the only limit hypothesis.
    Proofs only; nothing here is extracted. *)
 From ApolloVerif Require Import Base.Chars Ast.Ast Schema.Model Exec.Valid Exec.MergeXing Exec.FragCyclesProofs
   Exec.MergeXingProofs Exec.MergeXingEquivExpand Exec.MergeXingEquivBridge Exec.MergeXingEquivSem
